@@ -694,7 +694,6 @@ func (p *program) oracle(dir, t0 string, obs [][]opObs) (string, *core.Violation
 	if !ok {
 		return viol("C18/conditional-read/"+short, "a read returned a definition or a 200/304 decision that is not current at any point of any order explaining the writes")
 	}
-	_ = wit
 	var out []string
 	for t := range p.threads {
 		for j := range p.threads[t] {
@@ -708,8 +707,15 @@ func (p *program) oracle(dir, t0 string, obs [][]opObs) (string, *core.Violation
 			out = append(out, s)
 		}
 	}
-	return strings.Join(out, ",") + "|" + final["g"] + "|" + final["n"], nil
+	outcome := strings.Join(out, ",") + "|" + final["g"] + "|" + final["n"]
+	if debugOutcomes != nil {
+		debugOutcomes[p.name+": "+outcome+"  order "+wit]++
+	}
+	return outcome, nil
 }
+
+// debugOutcomes (C18_DEBUG=1) collects the distinct outcomes with a witness order.
+var debugOutcomes map[string]int
 
 // ---- the programs
 
@@ -767,6 +773,7 @@ func concPrograms() []*program {
 		mk("user-CREATE-vs-GET-inm", one(nu), one(gi)),
 		mk("user-CREATE-vs-GET", one(nu), one(gg)),
 		mk("user-PUT-vs-GET-inm", one(pu), one(gi)),
+		mk("user-PUT-vs-GET", one(pu), one(gg)),
 		mk("user-PUT-vs-user-GET-inm", one(pu), one(gu)),
 		mk("GET-inm-vs-GET", one(gi), one(gg)),
 		mk("group-PUT-vs-server-LOAD", one(w1), one(ld)),
@@ -796,6 +803,9 @@ func (p *program) small() bool {
 // distinct-outcome counts are exact; the larger ones are split below the
 // root execution over all shards.
 func runConc(res *core.Result, shard, shards int) {
+	if os.Getenv("C18_DEBUG") != "" {
+		debugOutcomes = map[string]int{}
+	}
 	nsmall := 0
 	for _, p := range concPrograms() {
 		if !core.Want(p.name) {
@@ -803,7 +813,7 @@ func runConc(res *core.Result, shard, shards int) {
 		}
 		bound := core.Pick(2, 3)
 		if !p.small() && !p.deep {
-			bound = core.Pick(1, 3)
+			bound = core.Pick(1, 2)
 		}
 		var sub core.Sub
 		if p.small() {
@@ -821,6 +831,16 @@ func runConc(res *core.Result, shard, shards int) {
 		res.AddSub(sub)
 		if res.Fault != "" {
 			return
+		}
+	}
+	if debugOutcomes != nil {
+		var ks []string
+		for k := range debugOutcomes {
+			ks = append(ks, k)
+		}
+		sort.Strings(ks)
+		for _, k := range ks {
+			fmt.Fprintf(os.Stderr, "%6d  %s\n", debugOutcomes[k], k)
 		}
 	}
 }
